@@ -5,9 +5,13 @@ sys.path.insert(0, os.path.dirname(os.path.abspath(__file__)))
 here = os.path.dirname(os.path.abspath(__file__))
 props = [json.loads(l) for l in open(os.path.join(here, 'properties.jsonl'))]
 checks = []; na = []
+hold = json.load(open(os.path.join(here, 'manifest_hold.json'))) if os.path.exists(os.path.join(here, 'manifest_hold.json')) else {}
 for p in props:
     pid = p['id']
     path = os.path.join(here, 'props', pid.lower() + '.py')
+    if pid in hold:
+        na.append({'property_id': pid, 'reason': hold[pid]})
+        continue
     if not os.path.exists(path):
         na.append({'property_id': pid, 'reason': 'no check registered yet: the Coq model and theorems for this property are not built at this commit (planned, see DESIGN.md section 7 %s); not claimed' % pid})
         continue
